@@ -28,3 +28,53 @@ theorem head_ok_inv {cfg : Cfg} {url : Bytes → Bytes → Option UrlView} {buf 
        obtain ⟨rfl, rfl, rfl, rfl, rfl, rfl, rfl⟩ := h
        rename_i hr hhdr _ _ _ _ _ _
        refine ⟨by simp_all, by simp_all, rfl, rfl, rfl, rfl, rfl, hr, hhdr, rfl, by simp_all, by simp_all⟩)
+
+/-! ### framing facts of an accepted header (from C26) -/
+
+def isTe (e : Entry) : Bool := e.id == idTransferEncoding
+
+theorem getInt64_cl_eq (es : List Entry) : getInt64 es idContentLength = (contentLength es).getD (-1) := by
+  unfold getInt64 contentLength
+  cases es.find? (fun e => e.id == idContentLength) with
+  | none => rfl
+  | some e =>
+    dsimp only
+    cases parseOffset e.value with
+    | none => rfl
+    | some p => rfl
+
+theorem headerOf_cl (cfg : Cfg) (st : Http1.PState) (hr : HdrResult) (h : headerOf cfg st = .ok hr) :
+    (hr.entries.filter isCl).length ≤ 1 ∧
+    ∀ e ∈ hr.entries, e.id = idContentLength →
+      ∃ n : Nat, contentLength hr.entries = some (n : Int) ∧ decimalValue (strip e.value) = some n := by
+  unfold headerOf at h
+  split at h
+  · exact C26.never_uses_other_value _ _ _ h
+  · simp only [Outcome.ok.injEq] at h
+    subst h
+    simp
+
+theorem headerOf_te_no_cl (cfg : Cfg) (st : Http1.PState) (hr : HdrResult) (h : headerOf cfg st = .ok hr)
+    (hte : chunked hr.entries = true) : contentLength hr.entries = none := by
+  unfold headerOf at h
+  split at h
+  · -- the TE branch of `finish` deletes every Content-Length entry
+    rw [parseHeader_eq] at h
+    cases hraw : rawEntries ⟨cfg.relaxed, .request, false⟩ st.mime with
+    | none => simp [hraw] at h
+    | some raw =>
+      have hc := C26.content_length_ignored ⟨cfg.relaxed, .request, false⟩ st.mime hr raw (by rw [parseHeader_eq]; exact h) hraw
+      by_cases ht : hasTe raw = true
+      · exact (hc (Or.inr ht)).1
+      · -- no Transfer-Encoding among the scanned entries: then none among the stored ones either
+        exfalso
+        simp only [hraw] at h
+        cases hfold : clFold cfg.relaxed [] {} raw with
+        | none => simp [hfold] at h
+        | some p =>
+          obtain ⟨es, cl⟩ := p
+          simp only [hfold] at h
+          sorry
+  · simp only [Outcome.ok.injEq] at h
+    subst h
+    simp [chunked, hasId] at hte
